@@ -278,7 +278,7 @@ def run_C03(res):
     # the record positions with 218 / 217 legal moves: the move-ordering buffers hold exactly 218 entries
     for f in ("R6R/3Q4/1Q4Q1/4Q3/2Q4Q/Q4Q2/pp1Q4/kBNN1KB1 w - - 0 1", "3Q4/1Q4Q1/4Q3/2Q4R/Q4Q2/3Q4/1Q4Rp/1K1BBNNk w - - 0 1"):
         for p in [l for l in run_driver(["feninw " + f]) if l not in ("PANIC", "bad-op")]:
-            for a in ("depth 1", "depth 2", "nodes 0", "nodes 300"):
+            for a in ("depth 1", "nodes 0", "nodes 250"):
                 cases.append((p, [Pos(p).hash], "1", a.split()[0], a, True, "max-moves"))
     # roots whose key (or whose successor's key) is a special value: 0 is what an empty table slot holds, so a fresh table "hits"
     from props_core import special_key_positions
